@@ -7,6 +7,7 @@
 //	c02 run    <dir> <plan.ndjson> <trace> <diag>      execute every cell of the plan (parallel workers)
 //	c02 one    <dir> <mutants.ndjson> <trace>          each listed mutant alone in a fresh process
 //	c02 guards <cases.ndjson> <trace>                  scaled-up replay of the Guards.tla cases
+//	c02 bytes  <dir> <mutants.ndjson> <outdir>         write the bytes of each listed mutant to <outdir>/<k>.bin
 //	c02 worker <dir>                                   (internal) task loop on stdin/stdout
 package main
 
@@ -668,6 +669,24 @@ func cmdOne(dir, listPath, tracePath string) {
 	out.Close()
 }
 
+// cmdBytes writes the bytes of the listed mutants (for replay files).
+func cmdBytes(dir, listPath, outDir string) {
+	seeds := loadSeeds(dir)
+	for k, m := range vio.ReadLines[mutate.Mutant](listPath) {
+		s := seeds[m.Seed]
+		if s == nil {
+			vio.Fatal(fmt.Errorf("unknown seed %d", m.Seed))
+		}
+		data, err := mutate.Apply(s, m)
+		if err != nil {
+			vio.Fatal(err)
+		}
+		if err := os.WriteFile(filepath.Join(outDir, strconv.Itoa(k)+".bin"), data, 0o644); err != nil {
+			vio.Fatal(err)
+		}
+	}
+}
+
 func main() {
 	if len(os.Args) < 2 {
 		vio.Fatal("usage: c02 seeds|run|one|guards|worker ...")
@@ -684,6 +703,8 @@ func main() {
 		cmdOne(a[0], a[1], a[2])
 	case "guards":
 		cmdGuards(a[0], a[1])
+	case "bytes":
+		cmdBytes(a[0], a[1], a[2])
 	default:
 		vio.Fatal("unknown sub-command " + os.Args[1])
 	}
